@@ -1,7 +1,13 @@
 (* C07 - extended semantics: vacuity clauses, then the strict definition over feasible worlds and finite layers. *)
-From InfOCF Require Import Core Tol Form Model Spec ThmOps ThmTop.
+From InfOCF Require Import Core Tol Form Model Spec Exec ThmOps ThmTop ThmPExt.
 From InfOCFProps Require Import Ex.
 
+(* extended p-entailment (Pinf: extended partition of D + (not B|A), then "no world spares the last layer and satisfies A"):
+   the dictionary keys of the base are distinct *)
+Theorem C07_p_entailment_extended : forall n D q P, D <> [] -> NoDup (map ckey D) -> part_ext n D = Some P ->
+  infer n SysP true D q = Ans (ext_spec (worlds n) P q (p_def (fresh D))).
+Proof. exact infer_p_ext. Qed.
+Print Assumptions C07_p_entailment_extended.
 Theorem C07_system_z_extended : forall n D q P, D <> [] -> part_ext n D = Some P ->
   infer n SysZ true D q = Ans (ext_spec (worlds n) P q z_spec).
 Proof. exact infer_z_ext. Qed.
